@@ -727,6 +727,17 @@ let handle_shape fields =
       if not (Shape.shape_ok_in c e) then mismatch "shape" input "-" "model tree differs from the expected shape";
       if is_prefix "FAIL" orc then oracle_fail "shape" input orc
     end
+  | ["L"; enc; text; impl; orc] ->
+    (* a re-layout (other trivia between the same tokens) of an E case: implementation only *)
+    let toks = words enc in
+    count_case text (L.length toks > 1);
+    if impl = "PANIC" then oracle_fail "shape" text orc
+    else begin
+      let expected = String.concat " " (L.filter (fun t -> t <> "p") toks) in
+      if expected <> impl then
+        oracle_fail "shape" text ("FAIL C05: typed AST shape " ^ impl ^ " of a re-layout differs from the derivation " ^ expected)
+      else if is_prefix "FAIL" orc then oracle_fail "shape" text orc
+    end
   | ["S"; kind; text; impl; expected] ->
     let input = kind ^ " | " ^ text in
     count_case input true; sample "shape" input impl;
@@ -871,7 +882,10 @@ let handle_accept fields =
       let mt = Accept.composes_top ni nj and mb = Accept.composes_block ni nj in
       if (t = "1") <> mt || (b = "1") <> mb then
         mismatch "accept" input ("top=" ^ t ^ " block=" ^ b) (Printf.sprintf "top=%b block=%b" mt mb);
-      if t <> "1" || b <> "1" then begin
+      if (t <> "1" && mt) || (b <> "1" && mb) then
+        (* the implementation fails to compose a pair the model composes: outside every listed class *)
+        oracle_fail "accept" input "FAIL C16: the concatenation does not parse to the statements of its parts (the model of the pinned grammar composes this pair)"
+      else if t <> "1" || b <> "1" then begin
         if Accept.is_let ni || Accept.is_let nj then known_hit "accept" "C16.let_context" input
         else if b = "1" && Accept.k_empty_after_item ni nj then known_hit "accept" "C16.empty_stmt_after_item" input
         else if Accept.ends_with_assignment ni && Accept.starts_with_operator nj then known_hit "accept" "C16.assignment_glues_operator" input
